@@ -173,7 +173,7 @@ func ceaFor(kind string, cer *wireMsg) []byte {
 	case "relayok": // a relay agent: the only application it announces is the relay id
 		m.NewAVP(avp.AuthApplicationID, avp.Mbit, 0, datatype.Unsigned32(0xffffffff))
 	case "vsaunsup", "vsaok", "defonly": // the only application information is a vendor-specific group, Vendor-Id first
-		app := uint32(16777999) // no dictionary defines it
+		app := uint32(16777999)                   // no dictionary defines it
 		if kind == "vsaok" || kind == "defonly" { // defonly: S6a, which dict.Default defines and the client's own dictionary does not
 			app = 16777251
 		}
